@@ -7,6 +7,7 @@
 import DrxProofs.LinkJsText
 import DrxProofs.LinkJsLex
 import DrxProofs.LinkJsFuel
+import DrxProofs.LinkJsParen
 namespace Drx.LinkJs
 open Drx Drx.Lscr Drx.Gen Drx.Spec Drx.Link
 set_option linter.unusedSimpArgs false
@@ -293,40 +294,257 @@ theorem js_stmt_emb (hs : List Spec.Name) (hret : hs.contains (S "return") = fal
     simp [Node.withResult, toJsS, txS, jcall, txJ, txArgs, JE.needsParen, S]
   | _ => simp [JsOkS] at hf
 
-/-- **J5 (text)**: a statement list -/
-theorem jsStmts_emb (hs : List Spec.Name) (hret : hs.contains (S "return") = false) : ∀ (ss : List Stmt), JsOkSs ss = true →
+/-! structured statements: `if`, `repeat while`, `repeat with` -/
+
+/-- statements that are one line -/
+def isSimpleJ : JS → Bool
+  | .ifs .. => false
+  | .while .. => false
+  | .for3 .. => false
+  | _ => true
+
+theorem txT_simple (ind : Nat) (s : JS) (h : isSimpleJ s = true) : txT ind s = indentOf ind ++ txS s ++ S "\n" := by
+  cases s <;> first | rfl | (simp [isSimpleJ] at h)
+
+theorem toJsS_simple (c : JCtx) (s : Stmt) (hf : JsOkS s = true) : isSimpleJ (toJsS c s) = true := by
+  cases s with
+  | set lv v => rfl
+  | call f as =>
+    simp only [toJsS]
+    split
+    · rfl
+    · split <;> rfl
+  | exit => rfl
+  | _ => simp [JsOkS] at hf
+
+theorem stripParens_group (x : Str) : stripParens (S "(" ++ x ++ S ")") = x := by
+  have e : S "(" ++ x ++ S ")" = '(' :: (x ++ [')']) := by simp [S]
+  rw [e]
+  unfold Lscr.stripParens pySlice
+  have h1 : ¬ ((1 : Int) < 0) := by omega
+  have h2 : ((-1 : Int) < 0) := by omega
+  have hn : ((('(' :: (x ++ [')'])).length : Nat) : Int) = (x.length : Int) + 2 := by simp; omega
+  simp only [h1, h2, if_false, if_true, hn]
+  have ea : (min (1 : Int) ((x.length : Int) + 2)).toNat = 1 := by omega
+  have eb : (max (-1 + ((x.length : Int) + 2)) 0).toNat = x.length + 1 := by omega
+  rw [ea, eb]
+  simp
+
+theorem endsWith_snoc_brace (t : Str) : endsWith (t ++ S "}") (S "}") = true := by
+  rw [endsWith_brace]; simp [S]
+
+/-- a statement whose code ends with `}` gets no semicolon -/
+theorem js_stmt_brace (p : Int) (code : Node) (ind : Nat) (t : Str) (h : js true false code ind = .ok (.s (t ++ S "}")))
+    (hw : code.withResult = false) :
+    js true false (.stmt p code) ind = .ok (.s (indentOf ind ++ (t ++ S "}") ++ S "\n")) := by
+  have := endsWith_snoc_brace t
+  simp only [js, h, bind, Except.bind, Name.asStr, pure, Except.pure, hw, Bool.false_eq_true, if_false, this, if_true]
+
+theorem embSsJ_isEmpty (hs : List Spec.Name) : ∀ (ss : List Stmt) (ns : List Node), EmbSsJ hs ss ns → ns.isEmpty = ss.isEmpty
+  | [], ns, h => by simp only [EmbSsJ] at h; subst h; rfl
+  | s :: ss, ns, h => by simp only [EmbSsJ] at h; obtain ⟨x, xs, rfl, _, _⟩ := h; rfl
+
+theorem toJsSs_isEmpty (c : JCtx) (ss : List Stmt) : (toJsSs c ss).isEmpty = ss.isEmpty := by
+  cases ss <;> rfl
+
+theorem for_ne_while : ¬ (S "for" = S "while") := by decide
+
+/-- the condition of `if` / `while`: the model's text for the image of `c`, in exactly one pair of parentheses -/
+theorem js_cond (ctx : JCtx) (c : Expr) (hf : JsOkE c = true) (cn : Node) (hc : Emb c cn) :
+    js true false cn 0 = .ok (.s (txJ (toJsE ctx c))) ∧
+    (if isParenthesized (txJ (toJsE ctx c)) then txJ (toJsE ctx c) else S "(" ++ txJ (toJsE ctx c) ++ S ")") =
+      S "(" ++ txBare (toJsE ctx c) ++ S ")" :=
+  ⟨js_emb ctx c hf cn hc 0, cond_text _ (toJsE_lexok ctx c hf)⟩
+
+mutual
+/-- **J-text for trees**: one (possibly structured) statement -/
+theorem js_tree (hs : List Spec.Name) (hret : hs.contains (S "return") = false) : ∀ (s : Stmt), JsOkT s = true → ∀ (n : Node),
+    EmbSJ hs s n → ∀ (ind : Nat), js true false n ind = .ok (.s (txT ind (toJsS { handlers := hs, inTell := false } s)))
+  | .set lv v, hf, n, h, ind => by
+    simp only [JsOkT] at hf
+    rw [js_stmt_emb hs hret (.set lv v) hf n h ind, txT_simple _ _ (toJsS_simple _ _ hf)]
+  | .call f as, hf, n, h, ind => by
+    simp only [JsOkT] at hf
+    rw [js_stmt_emb hs hret (.call f as) hf n h ind, txT_simple _ _ (toJsS_simple _ _ hf)]
+  | .exit, hf, n, h, ind => by
+    rw [js_stmt_emb hs hret .exit rfl n h ind, txT_simple _ _ (toJsS_simple _ _ rfl)]
+  | .ifThen c t e, hf, n, h, ind => by
+    simp only [EmbSJ] at h
+    obtain ⟨p, q, cn, ifs, els, rfl, hc, ht, he⟩ := h
+    simp only [JsOkT, Bool.and_eq_true] at hf
+    obtain ⟨⟨hfc, hft⟩, hfe⟩ := hf
+    obtain ⟨e1, ec⟩ := js_cond { handlers := hs, inTell := false } c hfc cn hc
+    have e2 := js_trees hs hret t hft ifs ht (ind + 1)
+    have e3 := js_trees hs hret e hfe els he (ind + 1)
+    have hemp := embSsJ_isEmpty hs e els he
+    have hcode : js true false (.ifThen q cn ifs els) ind = .ok (.s ((S "if (" ++ txBare (toJsE { handlers := hs, inTell := false } c) ++ S ") {\n" ++
+        txBody (ind + 1) (toJsSs { handlers := hs, inTell := false } t) ++
+        (if e.isEmpty then [] else indentOf ind ++ S "} else {\n" ++ txBody (ind + 1) (toJsSs { handlers := hs, inTell := false } e)) ++
+        indentOf ind) ++ S "}")) := by
+      cases hee : e.isEmpty with
+      | true =>
+        rw [hee] at hemp
+        simp only [js, e1, e2, hemp, if_true, bind, Except.bind, pure, Except.pure, Lscr.Name.asStr, ec]
+        simp [S, List.append_assoc]
+      | false =>
+        rw [hee] at hemp
+        simp only [js, e1, e2, e3, hemp, Bool.false_eq_true, if_false, bind, Except.bind, pure, Except.pure, Lscr.Name.asStr, ec]
+        simp [S, List.append_assoc]
+    rw [js_stmt_brace p _ ind _ hcode rfl]
+    simp only [toJsS, txT, toJsSs_isEmpty]
+    simp [S, List.append_assoc]
+  | .repeatWhile c b, hf, n, h, ind => by
+    simp only [EmbSJ] at h
+    obtain ⟨p, rp, re, cn, body, rfl, hc, hb⟩ := h
+    simp only [JsOkT, Bool.and_eq_true] at hf
+    obtain ⟨hfc, hfb⟩ := hf
+    obtain ⟨e1, ec⟩ := js_cond { handlers := hs, inTell := false } c hfc cn hc
+    have e2 := js_trees hs hret b hfb body hb (ind + 1)
+    have hcode : js true false (.repeat_ rp re cn body (S "while") .none (.s []) [] .none) ind =
+        .ok (.s ((S "while (" ++ txBare (toJsE { handlers := hs, inTell := false } c) ++ S ") {\n" ++
+          txBody (ind + 1) (toJsSs { handlers := hs, inTell := false } b) ++ indentOf ind) ++ S "}")) := by
+      simp only [js, e1, e2, Node.isNone, if_true, bind, Except.bind, pure, Except.pure, Lscr.Name.asStr, ec]
+      simp [S, List.append_assoc]
+    rw [js_stmt_brace p _ ind _ hcode rfl]
+    simp only [toJsS, txT]
+    simp [S, List.append_assoc]
+  | .repeatWith lv a b down body, hf, n, h, ind => by
+    cases lv with
+    | var k v =>
+      cases k with
+      | loc =>
+        simp only [EmbSJ] at h
+        obtain ⟨p, rp, re, cp, pv1, pv2, ra, rb, body', rfl, ha, hb, hbody⟩ := h
+        simp only [JsOkT, Bool.and_eq_true] at hf
+        obtain ⟨⟨⟨hv, hfa⟩, hfb⟩, hfbody⟩ := hf
+        have hvk : JsOkE (.var .loc v) = true := by simp only [JsOkE, Bool.or_eq_true]; exact Or.inr hv
+        have ea := js_emb { handlers := hs, inTell := false } a hfa ra ha 0
+        have e3 := js_trees hs hret body hfbody body' hbody (ind + 1)
+        have ev := js_emb { handlers := hs, inTell := false } (.var .loc v) hvk (.leaf .localVar (.s v) pv2) ⟨pv2, rfl⟩ 0
+        have hnone : (Node.leaf Leaf.localVar (Name.s v) pv2).isNone = false := rfl
+        generalize hlv : Node.leaf Leaf.localVar (Name.s v) pv2 = lvn at ev hnone ⊢
+        cases down with
+        | false =>
+          have hcf : JsOkE (.bin .le (.var .loc v) b) = true := by rw [JsOkE, hvk, hfb]; rfl
+          have hemb : Emb (.bin .le (.var .loc v) b) (.binary (S "lte") cp (.leaf .localVar (.s v) pv1) rb) := ⟨cp, _, rb, rfl, ⟨pv1, rfl⟩, hb⟩
+          obtain ⟨e1, ec⟩ := js_cond { handlers := hs, inTell := false } _ hcf _ hemb
+          have hbin : toJsE { handlers := hs, inTell := false } (.bin .le (.var .loc v) b) =
+              .bin "<=".toList (toJsE { handlers := hs, inTell := false } (.var .loc v)) (toJsE { handlers := hs, inTell := false } b) := by
+            simp [toJsE, jsBinOp]
+          simp only [Bool.false_eq_true, if_false]
+          generalize hcn : Node.binary (S "lte") cp (Node.leaf Leaf.localVar (Name.s v) pv1) rb = cn' at e1 ⊢
+          have hcode : js true false (.repeat_ rp re cn' body' (S "for") ra (.s v) (S "+") lvn) ind =
+              .ok (.s ((S "for(" ++ txJ (toJsE { handlers := hs, inTell := false } (.var .loc v)) ++ S " = " ++
+                txJ (toJsE { handlers := hs, inTell := false } a) ++ S "; " ++
+                txBare (toJsE { handlers := hs, inTell := false } (.bin .le (.var .loc v) b)) ++ S "; " ++
+                txJ (toJsE { handlers := hs, inTell := false } (.var .loc v)) ++ S "++" ++ S ") {\n" ++
+                txBody (ind + 1) (toJsSs { handlers := hs, inTell := false } body) ++ indentOf ind) ++ S "}")) := by
+            simp only [js, e1, ev, ea, e3, hnone, for_ne_while, if_false, if_true, bind, Except.bind, pure, Except.pure, Lscr.Name.asStr,
+              Lscr.Name.str, ec, stripParens_group, Bool.false_eq_true]
+          rw [js_stmt_brace p _ ind _ hcode rfl, hbin]
+          simp only [toJsS, txT, txBare]
+          simp [S, List.append_assoc, txBare]
+        | true =>
+          have hcf : JsOkE (.bin .ge (.var .loc v) b) = true := by rw [JsOkE, hvk, hfb]; rfl
+          have hemb : Emb (.bin .ge (.var .loc v) b) (.binary (S "gte") cp (.leaf .localVar (.s v) pv1) rb) := ⟨cp, _, rb, rfl, ⟨pv1, rfl⟩, hb⟩
+          obtain ⟨e1, ec⟩ := js_cond { handlers := hs, inTell := false } _ hcf _ hemb
+          have hbin : toJsE { handlers := hs, inTell := false } (.bin .ge (.var .loc v) b) =
+              .bin ">=".toList (toJsE { handlers := hs, inTell := false } (.var .loc v)) (toJsE { handlers := hs, inTell := false } b) := by
+            simp [toJsE, jsBinOp]
+          simp only [if_true]
+          generalize hcn : Node.binary (S "gte") cp (Node.leaf Leaf.localVar (Name.s v) pv1) rb = cn' at e1 ⊢
+          have hs' : ¬ (S "-" = S "+") := by decide
+          have hcode : js true false (.repeat_ rp re cn' body' (S "for") ra (.s v) (S "-") lvn) ind =
+              .ok (.s ((S "for(" ++ txJ (toJsE { handlers := hs, inTell := false } (.var .loc v)) ++ S " = " ++
+                txJ (toJsE { handlers := hs, inTell := false } a) ++ S "; " ++
+                txBare (toJsE { handlers := hs, inTell := false } (.bin .ge (.var .loc v) b)) ++ S "; " ++
+                txJ (toJsE { handlers := hs, inTell := false } (.var .loc v)) ++ S "--" ++ S ") {\n" ++
+                txBody (ind + 1) (toJsSs { handlers := hs, inTell := false } body) ++ indentOf ind) ++ S "}")) := by
+            simp only [js, e1, ev, ea, e3, hnone, for_ne_while, hs', if_false, if_true, bind, Except.bind, pure, Except.pure, Lscr.Name.asStr,
+              Lscr.Name.str, ec, stripParens_group, Bool.false_eq_true]
+          rw [js_stmt_brace p _ ind _ hcode rfl, hbin]
+          simp only [toJsS, txT, txBare]
+          simp [S, List.append_assoc, txBare]
+      | _ => simp [JsOkT] at hf
+    | _ => simp [JsOkT] at hf
+  | .put .., hf, _, _, _ => by simp [JsOkT] at hf
+  | .delete _, hf, _, _, _ => by simp [JsOkT] at hf
+  | .hilite _, hf, _, _, _ => by simp [JsOkT] at hf
+  | .mcall .., hf, _, _, _ => by simp [JsOkT] at hf
+  | .tell .., hf, _, _, _ => by simp [JsOkT] at hf
+  | .repeatIn .., hf, _, _, _ => by simp [JsOkT] at hf
+  | .exitRepeat, hf, _, _, _ => by simp [JsOkT] at hf
+/-- **J-text for trees**: a statement list -/
+theorem js_trees (hs : List Spec.Name) (hret : hs.contains (S "return") = false) : ∀ (ss : List Stmt), JsOkTs ss = true →
     ∀ (ns : List Node), EmbSsJ hs ss ns → ∀ (ind : Nat),
     jsStmts true ns ind = .ok (txBody ind (toJsSs { handlers := hs, inTell := false } ss))
   | [], _, ns, h, ind => by
     simp only [EmbSsJ] at h; subst h; simp [jsStmts, toJsSs, txBody]
   | s :: ss, hf, ns, h, ind => by
+    simp only [EmbSsJ] at h
     obtain ⟨x, xs, rfl, hx, hxs⟩ := h
-    simp only [JsOkSs, Bool.and_eq_true] at hf
-    have e1 := js_stmt_emb hs hret s hf.1 x hx ind
-    have e2 := jsStmts_emb hs hret ss hf.2 xs hxs ind
+    simp only [JsOkTs, Bool.and_eq_true] at hf
+    have e1 := js_tree hs hret s hf.1 x hx ind
+    have e2 := js_trees hs hret ss hf.2 xs hxs ind
     simp only [jsStmts, e1, e2, bind, Except.bind, Name.asStr, pure, Except.pure, toJsSs, txBody]
+end
+
+/-- flat bodies are structured bodies -/
+theorem jsOkSs_Ts : ∀ (ss : List Stmt), JsOkSs ss = true → JsOkTs ss = true
+  | [], _ => rfl
+  | s :: ss, h => by
+    simp only [JsOkSs, Bool.and_eq_true] at h
+    simp only [JsOkTs, Bool.and_eq_true]
+    refine ⟨?_, jsOkSs_Ts ss h.2⟩
+    cases s <;> first | (simp [JsOkS] at h; done) | (simp only [JsOkT]; exact h.1) | rfl
+
+/-- **J5 (text)**: a flat statement list -/
+theorem jsStmts_emb (hs : List Spec.Name) (hret : hs.contains (S "return") = false) (ss : List Stmt) (hf : JsOkSs ss = true)
+    (ns : List Node) (h : EmbSsJ hs ss ns) (ind : Nat) :
+    jsStmts true ns ind = .ok (txBody ind (toJsSs { handlers := hs, inTell := false } ss)) :=
+  js_trees hs hret ss (jsOkSs_Ts ss hf) ns h ind
 
 /-! ### (b) lexing -/
 
+mutual
 def LexOKS : JS → Prop
   | .expr e => LexOK e
   | .assign l r => LexOK l ∧ LexOK r
-  | .ret [] => True
-  | .ret [e] => LexOK e
+  | .ret es => (match es with | [] => True | [e] => LexOK e | _ => False)
   | .var n => jsIdLex n = true
+  | .ifs c t e => LexOK c ∧ LexOKSs t ∧ LexOKSs e
+  | .while c b => LexOK c ∧ LexOKSs b
+  | .for3 v a c _ b => LexOK v ∧ LexOK a ∧ LexOK c ∧ LexOKSs b
   | _ => False
-
 def LexOKSs : List JS → Prop
   | [] => True
   | s :: ss => LexOKS s ∧ LexOKSs ss
+end
 
-theorem lexS (s : JS) (h : LexOKS s) (rest : Str) : LexesTo (txS s) (prS s) rest := by
+theorem lex_inc (rest : Str) : LexesTo (S "++") [.p .inc] rest :=
+  ⟨1, by decide, fun g acc _ => by simp [S, lexJsAux, isJsIdStart]⟩
+
+theorem lex_dec (rest : Str) : LexesTo (S "--") [.p .dec] rest :=
+  ⟨1, by decide, fun g acc _ => by simp [S, lexJsAux, isJsIdStart]⟩
+
+/-- a condition without its outer parentheses -/
+theorem lexBare (e : JE) (h : LexOK e) (rest : Str) (hs : SepAll rest) : LexesTo (txBare e) (prBare e) rest := by
+  cases e with
+  | bin op a b =>
+    obtain ⟨hop, ha, hb⟩ : (jsOpInfo op).isSome = true ∧ LexOK a ∧ LexOK b := h
+    obtain ⟨x, hx, rfl, htok⟩ := jsOpInfo_lex op hop
+    have := (lexE a ha _ (by headis)).append ((lex_infix x hx _).append (lexE b hb rest (hs.sep b)))
+    simpa [txBare, prBare, S, htok, List.append_assoc] using this
+  | _ => exact lexE _ h rest (hs.sep _)
+
+theorem lexSimple (s : JS) (h : LexOKS s) (hsim : isSimpleJ s = true) (rest : Str) : LexesTo (txS s) (prS s) rest := by
   cases s with
   | expr e =>
-    have := (lexE e h _ (by headis)).append (lex_semi rest)
+    have he : LexOK e := by simpa [LexOKS] using h
+    have := (lexE e he _ (by headis)).append (lex_semi rest)
     simpa [txS, prS, S] using this
   | assign l r =>
-    obtain ⟨hl, hr⟩ : LexOK l ∧ LexOK r := h
+    obtain ⟨hl, hr⟩ : LexOK l ∧ LexOK r := by simpa [LexOKS] using h
     have := (lexE l hl _ (by headis)).append ((lex_assign _).append ((lexE r hr _ (by headis)).append (lex_semi rest)))
     simpa [txS, prS, S] using this
   | ret es =>
@@ -337,22 +555,89 @@ theorem lexS (s : JS) (h : LexOKS s) (rest : Str) : LexesTo (txS s) (prS s) rest
     | cons e es =>
       cases es with
       | nil =>
-        have he : LexOK e := h
+        have he : LexOK e := by simpa [LexOKS] using h
         have := (lex_id (S "return") (by decide) _ (by headis)).append ((lex_space _).append ((lexE e he _ (by headis)).append (lex_semi rest)))
         simpa [txS, prS, S] using this
       | cons _ _ => exact absurd h (by simp [LexOKS])
   | var n =>
-    have hn : jsIdLex n = true := h
+    have hn : jsIdLex n = true := by simpa [LexOKS] using h
     have := (lex_id (S "var") (by decide) _ (by headis)).append ((lex_space _).append ((lex_id n hn _ (by headis)).append (lex_semi rest)))
     simpa [txS, prS, S] using this
-  | _ => exact absurd h (by simp [LexOKS])
+  | brk => exact absurd h (by simp [LexOKS])
+  | ifs _ _ _ => simp [isSimpleJ] at hsim
+  | «while» _ _ => simp [isSimpleJ] at hsim
+  | for3 _ _ _ _ _ => simp [isSimpleJ] at hsim
+  | forOf _ _ _ => exact absurd h (by simp [LexOKS])
+  | «with» _ _ => exact absurd h (by simp [LexOKS])
 
+mutual
+theorem lexT (ind : Nat) : ∀ (s : JS), LexOKS s → ∀ (rest : Str), LexesTo (txT ind s) (prS s) rest
+  | .ifs c t e, h, rest => by
+    simp only [LexOKS] at h
+    obtain ⟨hc, ht, he⟩ := h
+    have hhead := fun (R : Str) => (lex_indent ind _).append ((lex_id (S "if") (by decide) _ (by headis)).append ((lex_space _).append ((lex_lp _).append
+      ((lexBare c hc _ (by headis)).append ((lex_rp _).append ((lex_space _).append ((lex_lc _).append ((lex_nl _).append
+      (lexBody (ind + 1) t ht R)))))))))
+    cases hee : e.isEmpty with
+    | true =>
+      have := (hhead _).append ((lex_indent ind _).append ((lex_rc _).append (lex_nl rest)))
+      simpa [txT, prS, hee, S, List.append_assoc] using this
+    | false =>
+      have := (hhead _).append ((lex_indent ind _).append ((lex_rc _).append ((lex_space _).append
+        ((lex_id (S "else") (by decide) _ (by headis)).append ((lex_space _).append ((lex_lc _).append ((lex_nl _).append
+        ((lexBody (ind + 1) e he _).append ((lex_indent ind _).append ((lex_rc _).append (lex_nl rest)))))))))))
+      simpa [txT, prS, hee, S, List.append_assoc] using this
+  | .while c b, h, rest => by
+    simp only [LexOKS] at h
+    obtain ⟨hc, hb⟩ := h
+    have := (lex_indent ind _).append ((lex_id (S "while") (by decide) _ (by headis)).append ((lex_space _).append ((lex_lp _).append
+      ((lexBare c hc _ (by headis)).append ((lex_rp _).append ((lex_space _).append ((lex_lc _).append ((lex_nl _).append
+      ((lexBody (ind + 1) b hb _).append ((lex_indent ind _).append ((lex_rc _).append (lex_nl rest))))))))))))
+    simpa [txT, prS, S, List.append_assoc] using this
+  | .for3 v a c d b, h, rest => by
+    simp only [LexOKS] at h
+    obtain ⟨hv, ha, hc, hb⟩ := h
+    have htail := (lex_rp _).append ((lex_space _).append ((lex_lc _).append ((lex_nl _).append
+      ((lexBody (ind + 1) b hb _).append ((lex_indent ind _).append ((lex_rc _).append (lex_nl rest)))))))
+    cases d with
+    | false =>
+      have := (lex_indent ind _).append ((lex_id (S "for") (by decide) _ (by headis)).append ((lex_lp _).append
+        ((lexE v hv _ (by headis)).append ((lex_assign _).append ((lexE a ha _ (by headis)).append ((lex_semi _).append ((lex_space _).append
+        ((lexBare c hc _ (by headis)).append ((lex_semi _).append ((lex_space _).append ((lexE v hv _ (by headis)).append
+        ((lex_inc _).append htail))))))))))))
+      simpa [txT, prS, S, List.append_assoc] using this
+    | true =>
+      have := (lex_indent ind _).append ((lex_id (S "for") (by decide) _ (by headis)).append ((lex_lp _).append
+        ((lexE v hv _ (by headis)).append ((lex_assign _).append ((lexE a ha _ (by headis)).append ((lex_semi _).append ((lex_space _).append
+        ((lexBare c hc _ (by headis)).append ((lex_semi _).append ((lex_space _).append ((lexE v hv _ (by headis)).append
+        ((lex_dec _).append htail))))))))))))
+      simpa [txT, prS, S, List.append_assoc] using this
+  | .expr e, h, rest => by
+    have := (lex_indent ind _).append ((lexSimple (.expr e) h rfl _).append (lex_nl rest))
+    simpa [txT, S, List.append_assoc] using this
+  | .assign l r, h, rest => by
+    have := (lex_indent ind _).append ((lexSimple (.assign l r) h rfl _).append (lex_nl rest))
+    simpa [txT, S, List.append_assoc] using this
+  | .ret es, h, rest => by
+    have := (lex_indent ind _).append ((lexSimple (.ret es) h rfl _).append (lex_nl rest))
+    simpa [txT, S, List.append_assoc] using this
+  | .var n, h, rest => by
+    have := (lex_indent ind _).append ((lexSimple (.var n) h rfl _).append (lex_nl rest))
+    simpa [txT, S, List.append_assoc] using this
+  | .brk, h, _ => absurd h (by simp [LexOKS])
+  | .forOf _ _ _, h, _ => absurd h (by simp [LexOKS])
+  | .with _ _, h, _ => absurd h (by simp [LexOKS])
 theorem lexBody (ind : Nat) : ∀ (ss : List JS), LexOKSs ss → ∀ (rest : Str), LexesTo (txBody ind ss) (prBody ss) rest
   | [], _, rest => by simpa [txBody, prBody] using LexesTo.nil rest
   | s :: ss, h, rest => by
-    obtain ⟨h1, h2⟩ : LexOKS s ∧ LexOKSs ss := h
-    have := (lex_indent ind _).append ((lexS s h1 _).append ((lex_nl _).append (lexBody ind ss h2 rest)))
-    simpa [txBody, prBody, S, List.append_assoc] using this
+    simp only [LexOKSs] at h
+    obtain ⟨h1, h2⟩ := h
+    have := (lexT ind s h1 _).append (lexBody ind ss h2 rest)
+    simpa [txBody, prBody] using this
+end
+
+/-- a simple statement line (the form of the flat development) -/
+theorem lexS (s : JS) (h : LexOKS s) (hsim : isSimpleJ s = true) (rest : Str) : LexesTo (txS s) (prS s) rest := lexSimple s h hsim rest
 
 /-! ### (c) reading -/
 
@@ -451,17 +736,32 @@ def RetOK (e : JE) : Prop :=
   (∃ t ts, prJ e = t :: ts ∧ t ≠ .p .semi) ∧
   ∀ (rest : List JTok) (F : Nat), 10 * (prJ e).length ≤ F → jExpr F (prJ e ++ .p .semi :: rest) = some (e, .p .semi :: rest)
 
+mutual
 def ReadOKS : JS → Prop
   | .expr e => JFrag e ∧ StartsId e
   | .assign l r => JFrag l ∧ StartsId l ∧ JFrag r
-  | .ret [] => True
-  | .ret [e] => RetOK e
+  | .ret es => (match es with | [] => True | [e] => RetOK e | _ => False)
   | .var _ => True
+  | .ifs c t e => JFrag c ∧ ReadOKSs t ∧ ReadOKSs e
+  | .while c b => JFrag c ∧ ReadOKSs b
+  | .for3 v a c _ b => JFrag v ∧ JFrag a ∧ JFrag c ∧ ReadOKSs b
   | _ => False
-
 def ReadOKSs : List JS → Prop
   | [] => True
   | s :: ss => ReadOKS s ∧ ReadOKSs ss
+end
+
+mutual
+/-- fuel the statement reader needs beyond one unit: the nesting of blocks -/
+def stW : JS → Nat
+  | .ifs _ t e => ssW t + ssW e + 2
+  | .while _ b => ssW b + 2
+  | .for3 _ _ _ _ b => ssW b + 2
+  | _ => 0
+def ssW : List JS → Nat
+  | [] => 0
+  | s :: ss => stW s + ssW ss + 1
+end
 
 /-- reading one expression followed by `;` / `=` with the fuel the statement reader passes -/
 theorem jExpr_read (e : JE) (h : JFrag e) (R : List JTok) (hf : JFollow 1 R) (hp : NoPost R) (F : Nat)
@@ -474,18 +774,126 @@ theorem retOK_frag (e : JE) (h : JFrag e) : RetOK e := by
   exact ⟨⟨t, ts, ht, hs.1⟩, fun rest F hF =>
     jExpr_read e h (.p .semi :: rest) (jfollow_closer _ _ _ (Or.inr (Or.inr (Or.inr rfl)))) trivial F hF⟩
 
-/-- **J5 (reading)**: the statement reader inverts `prS` -/
-theorem jStmt_prS (s : JS) (h : ReadOKS s) (rest : List JTok) (f : Nat) : jStmt (f + 1) (prS s ++ rest) = some (s, rest) := by
+/-- reading a condition printed without its outer parentheses, up to the closing `)` / `;` -/
+theorem jExpr_bare (e : JE) (h : JFrag e) (cl : JTok) (hcl : cl = .p .rp ∨ cl = .p .semi) (R : List JTok) (F : Nat)
+    (hF : 10 * (prBare e).length + 10 ≤ F) : jExpr F (prBare e ++ cl :: R) = some (e, cl :: R) := by
+  have hclo : JCloser cl := by rcases hcl with rfl | rfl; exact Or.inl rfl; exact Or.inr (Or.inr (Or.inr rfl))
+  cases e with
+  | bin op a b =>
+    obtain ⟨hop, ha, hb⟩ : (jsOpInfo op).isSome = true ∧ JFrag a ∧ JFrag b := h
+    obtain ⟨y, hy⟩ := Option.isSome_iff_exists.mp hop
+    obtain ⟨hy1, hy2⟩ := jsOpInfo_spec op y hy
+    have hlv := jsOps_level y hy1
+    have hA : ∀ F', jW a + 7 ≤ F' →
+        jLevel F' (y.2.2 + 1) (prJ a ++ y.2.1 :: (prJ b ++ cl :: R)) = some (a, y.2.1 :: (prJ b ++ cl :: R)) := fun F' hF' =>
+      jclimb _ _ a (jW a) (fun F'' hF'' => js_whole_t a ha _ (nopost_optok y hy1 _) F'' hF'') (6 - y.2.2) (y.2.2 + 1) (by omega) (by omega)
+        (jfollow_optok y hy1 _) F' (by omega)
+    have hB : ∀ F', jW b + 7 ≤ F' → jLevel F' (y.2.2 + 1) (prJ b ++ cl :: R) = some (b, cl :: R) := fun F' hF' =>
+      jclimb _ _ b (jW b) (fun F'' hF'' => js_whole_t b hb _ (nopost_closer _ _ hclo) F'' hF'') (6 - y.2.2) (y.2.2 + 1) (by omega) (by omega)
+        (jfollow_closer _ _ _ hclo) F' (by omega)
+    have h1 := jW_le a ha
+    have h2 := jW_le b hb
+    have hin := jread_infix y hy1 a b (prJ a) (prJ b) (cl :: R) (jW a + jW b + 7)
+      (fun F' hF' => hA F' (by omega)) (fun F' hF' => hB F' (by omega)) (jfollow_closer _ _ _ hclo)
+      (y.2.2 - 1) 1 (by omega) (Nat.le_refl 1) F (by
+        simp only [prBare, List.length_append, List.length_cons] at hF; omega)
+    have htok : (jsOpTok op).getD (.p .plus) = y.2.1 := by
+      have := jsOps_tok y hy1
+      rw [hy2] at this; simp [this]
+    rw [hy2] at hin
+    simpa [prBare, jExpr, htok, List.append_assoc] using hin
+  | _ =>
+    exact jExpr_read _ h (cl :: R) (jfollow_closer _ _ _ hclo) (nopost_closer _ _ hclo) F (by simp only [prBare] at hF; omega)
+
+theorem jfollow_inc (lvl : Nat) (r : List JTok) : JFollow lvl (.p .inc :: r) := by
+  intro l _
+  match l with
+  | 0 => rfl | 1 => rfl | 2 => rfl | 3 => rfl | 4 => rfl | 5 => rfl | 6 => rfl
+  | n + 7 => simp [jsBinOfTok]
+
+theorem jfollow_dec (lvl : Nat) (r : List JTok) : JFollow lvl (.p .dec :: r) := by
+  intro l _
+  match l with
+  | 0 => rfl | 1 => rfl | 2 => rfl | 3 => rfl | 4 => rfl | 5 => rfl | 6 => rfl
+  | n + 7 => simp [jsBinOfTok]
+
+/-- what follows an `if` block without `else` is not an `else {` -/
+def NoElse (rest : List JTok) : Prop := ∀ r, rest ≠ .id "else".toList :: .p .lc :: r
+
+/-! one-step lemmas of the statement reader for the three constructs -/
+
+theorem jStmt_if (f : Nat) (r1 r2 r3 : List JTok) (c : JE) (tb : List JS)
+    (e1 : jExpr (10 * (r1.length + 1 + 2)) r1 = some (c, .p .rp :: .p .lc :: r2))
+    (e2 : jBlock f r2 = some (tb, r3)) (hne : NoElse r3) :
+    jStmt (f + 1) (.id "if".toList :: .p .lp :: r1) = some (.ifs c tb [], r3) := by
+  rw [jStmt.eq_def]
+  simp only [List.length_cons, e1, e2, show ¬ ("if".toList = "var".toList) by decide, show ¬ ("if".toList = "break".toList) by decide,
+      show ¬ ("if".toList = "return".toList) by decide, if_false, if_true]
+  split
+  · rename_i tb' e' r3' heq
+    simp only [Option.some.injEq, Prod.mk.injEq] at heq
+    obtain ⟨rfl, rfl⟩ := heq
+    have : ¬ e' = "else".toList := fun he => hne r3' (by rw [he])
+    simp only [this, if_false]
+  · rename_i tb' r3' hno heq
+    simp only [Option.some.injEq, Prod.mk.injEq] at heq
+    obtain ⟨rfl, rfl⟩ := heq
+    rfl
+  · rename_i heq
+    simp at heq
+
+theorem jStmt_ifelse (f : Nat) (r1 r2 r3 r4 : List JTok) (c : JE) (tb eb : List JS)
+    (e1 : jExpr (10 * (r1.length + 1 + 2)) r1 = some (c, .p .rp :: .p .lc :: r2))
+    (e2 : jBlock f r2 = some (tb, .id "else".toList :: .p .lc :: r3)) (e3 : jBlock f r3 = some (eb, r4)) :
+    jStmt (f + 1) (.id "if".toList :: .p .lp :: r1) = some (.ifs c tb eb, r4) := by
+  rw [jStmt.eq_def]
+  simp only [List.length_cons, e1, e2, e3, show ¬ ("if".toList = "var".toList) by decide, show ¬ ("if".toList = "break".toList) by decide,
+      show ¬ ("if".toList = "return".toList) by decide, if_false, if_true]
+
+theorem jStmt_while (f : Nat) (r1 r2 r3 : List JTok) (c : JE) (b : List JS)
+    (e1 : jExpr (10 * (r1.length + 1 + 2)) r1 = some (c, .p .rp :: .p .lc :: r2))
+    (e2 : jBlock f r2 = some (b, r3)) :
+    jStmt (f + 1) (.id "while".toList :: .p .lp :: r1) = some (.while c b, r3) := by
+  rw [jStmt.eq_def]
+  simp only [List.length_cons, e1, e2, show ¬ ("while".toList = "var".toList) by decide, show ¬ ("while".toList = "break".toList) by decide,
+      show ¬ ("while".toList = "return".toList) by decide, show ¬ ("while".toList = "if".toList) by decide, if_false, if_true]
+
+theorem jStmt_for (f : Nat) (r1 r2 r3 r4 r5 r6 : List JTok) (v a c v2 : JE) (step : JTok) (d : Bool) (b : List JS)
+    (e1 : jExpr (10 * (r1.length + 1 + 2)) r1 = some (v, .p .assign :: r2))
+    (e2 : jExpr (10 * (r1.length + 1 + 2)) r2 = some (a, .p .semi :: r3))
+    (e3 : jExpr (10 * (r1.length + 1 + 2)) r3 = some (c, .p .semi :: r4))
+    (e4 : jExpr (10 * (r1.length + 1 + 2)) r4 = some (v2, step :: .p .rp :: .p .lc :: r5))
+    (hstep : step = if d then JTok.p .dec else JTok.p .inc) (hv : v2 = v)
+    (e5 : jBlock f r5 = some (b, r6)) :
+    jStmt (f + 1) (.id "for".toList :: .p .lp :: r1) = some (.for3 v a c d b, r6) := by
+  subst hv
+  rw [jStmt.eq_def]
+  cases d with
+  | false =>
+    subst hstep
+    simp only [List.length_cons, e1, e2, e3, e4, e5, show ¬ ("for".toList = "var".toList) by decide, show ¬ ("for".toList = "break".toList) by decide,
+      show ¬ ("for".toList = "return".toList) by decide, show ¬ ("for".toList = "if".toList) by decide,
+      show ¬ ("for".toList = "while".toList) by decide, show ¬ ("for".toList = "with".toList) by decide, if_false, if_true, Bool.false_eq_true]
+  | true =>
+    subst hstep
+    simp only [List.length_cons, e1, e2, e3, e4, e5, show ¬ ("for".toList = "var".toList) by decide, show ¬ ("for".toList = "break".toList) by decide,
+      show ¬ ("for".toList = "return".toList) by decide, show ¬ ("for".toList = "if".toList) by decide,
+      show ¬ ("for".toList = "while".toList) by decide, show ¬ ("for".toList = "with".toList) by decide, if_false, if_true,
+      show ¬ (JTok.p JP.dec = JTok.p JP.inc) by decide]
+
+/-- **J5 (reading)**: the statement reader inverts `prS` on simple statements -/
+theorem jStmt_prS (s : JS) (h : ReadOKS s) (hsim : isSimpleJ s = true) (rest : List JTok) (f : Nat) :
+    jStmt (f + 1) (prS s ++ rest) = some (s, rest) := by
   cases s with
   | expr e =>
-    obtain ⟨hf, x, tl, hx, hk⟩ := h
+    obtain ⟨hf, x, tl, hx, hk⟩ : JFrag e ∧ StartsId e := by simpa [ReadOKS] using h
     have e1 := jExpr_read e hf (.p .semi :: rest) (jfollow_closer _ _ _ (Or.inr (Or.inr (Or.inr rfl)))) trivial
       (10 * ((tl ++ .p .semi :: rest).length + 2)) (by rw [hx]; simp; omega)
     rw [hx] at e1
     have := jStmt_expr f x (tl ++ .p .semi :: rest) hk e rest (by simpa using e1)
     simpa [prS, hx] using this
   | assign l r =>
-    obtain ⟨hl, ⟨x, tl, hx, hk⟩, hr⟩ := h
+    obtain ⟨hl, ⟨x, tl, hx, hk⟩, hr⟩ : JFrag l ∧ StartsId l ∧ JFrag r := by simpa [ReadOKS] using h
     have e1 := jExpr_read l hl (.p .assign :: (prJ r ++ .p .semi :: rest)) (jfollow_assign _ _) trivial
       (10 * ((tl ++ .p .assign :: (prJ r ++ .p .semi :: rest)).length + 2)) (by rw [hx]; simp; omega)
     have e2 := jExpr_read r hr (.p .semi :: rest) (jfollow_closer _ _ _ (Or.inr (Or.inr (Or.inr rfl)))) trivial
@@ -499,24 +907,37 @@ theorem jStmt_prS (s : JS) (h : ReadOKS s) (rest : List JTok) (f : Nat) : jStmt 
     | cons e es =>
       cases es with
       | nil =>
-        obtain ⟨⟨t, ts, ht, hs⟩, hread⟩ : RetOK e := h
+        obtain ⟨⟨t, ts, ht, hs⟩, hread⟩ : RetOK e := by simpa [ReadOKS] using h
         have e1 := hread rest (10 * ((ts ++ .p .semi :: rest).length + 1 + 2)) (by rw [ht]; simp; omega)
         rw [ht] at e1
         have := jStmt_ret1 f t (ts ++ .p .semi :: rest) rest e hs (by simpa using e1)
         simpa [prS, ht] using this
       | cons _ _ => exact absurd h (by simp [ReadOKS])
   | var n => simpa [prS] using jStmt_var f n rest
-  | _ => exact absurd h (by simp [ReadOKS])
+  | brk => exact absurd h (by simp [ReadOKS])
+  | ifs _ _ _ => simp [isSimpleJ] at hsim
+  | «while» _ _ => simp [isSimpleJ] at hsim
+  | for3 _ _ _ _ _ => simp [isSimpleJ] at hsim
+  | forOf _ _ _ => exact absurd h (by simp [ReadOKS])
+  | «with» _ _ => exact absurd h (by simp [ReadOKS])
 
-theorem prS_head (s : JS) (h : ReadOKS s) : ∃ x tl, prS s = .id x :: tl := by
+/-- every statement starts with an identifier token other than `else` -/
+theorem prS_head (s : JS) (h : ReadOKS s) : ∃ x tl, prS s = .id x :: tl ∧ x ≠ "else".toList := by
   cases s with
-  | expr e => obtain ⟨_, x, tl, hx, _⟩ := h; exact ⟨x, tl ++ [.p .semi], by simp [prS, hx]⟩
-  | assign l r => obtain ⟨_, ⟨x, tl, hx, _⟩, _⟩ := h; exact ⟨x, tl ++ .p .assign :: (prJ r ++ [.p .semi]), by simp [prS, hx]⟩
+  | expr e =>
+    obtain ⟨_, x, tl, hx, hk⟩ : JFrag e ∧ StartsId e := by simpa [ReadOKS] using h
+    exact ⟨x, tl ++ [.p .semi], by simp [prS, hx], fun e => by rw [e] at hk; exact absurd hk (by decide)⟩
+  | assign l r =>
+    obtain ⟨_, ⟨x, tl, hx, hk⟩, _⟩ : JFrag l ∧ StartsId l ∧ JFrag r := by simpa [ReadOKS] using h
+    exact ⟨x, tl ++ .p .assign :: (prJ r ++ [.p .semi]), by simp [prS, hx], fun e => by rw [e] at hk; exact absurd hk (by decide)⟩
   | ret es =>
     cases es with
-    | nil => exact ⟨_, _, rfl⟩
-    | cons e es => exact ⟨_, _, rfl⟩
-  | var n => exact ⟨_, _, rfl⟩
+    | nil => exact ⟨_, _, rfl, by decide⟩
+    | cons e es => exact ⟨_, _, rfl, by decide⟩
+  | var n => exact ⟨_, _, rfl, by decide⟩
+  | ifs c t e => exact ⟨_, _, rfl, by decide⟩
+  | «while» c b => exact ⟨_, _, rfl, by decide⟩
+  | for3 v a c d b => exact ⟨_, _, rfl, by decide⟩
   | _ => exact absurd h (by simp [ReadOKS])
 
 theorem jBlock_close (f : Nat) (r : List JTok) : jBlock (f + 1) (.p .rc :: r) = some ([], r) := by
@@ -528,20 +949,121 @@ theorem jBlock_step (f : Nat) (x : Spec.Name) (tl r r' : List JTok) (s : JS) (ss
   rw [jBlock.eq_def]
   simp only [h1, h2]
 
-/-- **J5 (reading)**: a block body up to its closing brace -/
-theorem jBlock_prBody : ∀ (ss : List JS), ReadOKSs ss → ∀ (rest : List JTok) (F : Nat), ss.length + 2 ≤ F →
+theorem noElse_body (ss : List JS) (h : ReadOKSs ss) (rest : List JTok) : NoElse (prBody ss ++ .p .rc :: rest) := by
+  intro r e
+  cases ss with
+  | nil => simp [prBody] at e
+  | cons s ss =>
+    simp only [ReadOKSs] at h
+    obtain ⟨x, tl, hx, hne⟩ := prS_head s h.1
+    simp only [prBody, hx, List.cons_append, List.cons.injEq, JTok.id.injEq] at e
+    exact hne e.1
+
+theorem prS_length (s : JS) (h : ReadOKS s) : 1 ≤ (prS s).length := by
+  obtain ⟨x, tl, e, _⟩ := prS_head s h; rw [e]; simp
+
+mutual
+/-- **J5 (reading, trees)**: the statement reader inverts `prS`; `stW` = the block nesting below the statement -/
+theorem jStmt_prT : ∀ (s : JS), ReadOKS s → ∀ (rest : List JTok) (f : Nat), stW s ≤ f → NoElse rest →
+    jStmt (f + 1) (prS s ++ rest) = some (s, rest)
+  | .ifs c t e, h, rest, f, hf, hne => by
+    simp only [ReadOKS] at h
+    obtain ⟨hc, ht, he⟩ := h
+    simp only [stW] at hf
+    cases hee : e.isEmpty with
+    | true =>
+      have he0 : e = [] := List.isEmpty_iff.mp hee
+      subst he0
+      have e1 := jExpr_bare c hc (.p .rp) (Or.inl rfl) (.p .lc :: (prBody t ++ .p .rc :: rest))
+        (10 * ((prBare c ++ .p .rp :: .p .lc :: (prBody t ++ .p .rc :: rest)).length + 1 + 2)) (by simp; omega)
+      have e2 := jBlock_prT t ht rest f (by omega)
+      have := jStmt_if f (prBare c ++ .p .rp :: .p .lc :: (prBody t ++ .p .rc :: rest)) _ rest c t e1 e2 hne
+      simpa [prS, List.append_assoc] using this
+    | false =>
+      have e1 := jExpr_bare c hc (.p .rp) (Or.inl rfl) (.p .lc :: (prBody t ++ .p .rc :: .id "else".toList :: .p .lc :: (prBody e ++ .p .rc :: rest)))
+        (10 * ((prBare c ++ .p .rp :: .p .lc :: (prBody t ++ .p .rc :: .id "else".toList :: .p .lc :: (prBody e ++ .p .rc :: rest))).length + 1 + 2))
+        (by simp; omega)
+      have e2 := jBlock_prT t ht (.id "else".toList :: .p .lc :: (prBody e ++ .p .rc :: rest)) f (by omega)
+      have e3 := jBlock_prT e he rest f (by omega)
+      have := jStmt_ifelse f (prBare c ++ .p .rp :: .p .lc :: (prBody t ++ .p .rc :: .id "else".toList :: .p .lc :: (prBody e ++ .p .rc :: rest)))
+        _ _ rest c t e e1 e2 e3
+      simpa [prS, hee, List.append_assoc] using this
+  | .while c b, h, rest, f, hf, _ => by
+    simp only [ReadOKS] at h
+    obtain ⟨hc, hb⟩ := h
+    simp only [stW] at hf
+    have e1 := jExpr_bare c hc (.p .rp) (Or.inl rfl) (.p .lc :: (prBody b ++ .p .rc :: rest))
+      (10 * ((prBare c ++ .p .rp :: .p .lc :: (prBody b ++ .p .rc :: rest)).length + 1 + 2)) (by simp; omega)
+    have e2 := jBlock_prT b hb rest f (by omega)
+    have := jStmt_while f (prBare c ++ .p .rp :: .p .lc :: (prBody b ++ .p .rc :: rest)) _ rest c b e1 e2
+    simpa [prS, List.append_assoc] using this
+  | .for3 v a c d b, h, rest, f, hf, _ => by
+    simp only [ReadOKS] at h
+    obtain ⟨hv, ha, hc, hb⟩ := h
+    simp only [stW] at hf
+    have hlv := jW_le v hv
+    have hla := jW_le a ha
+    -- the token list after `for (`
+    generalize hstep : (if d then JTok.p .dec else JTok.p .inc) = step
+    let R5 := prBody b ++ .p .rc :: rest
+    let R4 := prJ v ++ step :: .p .rp :: .p .lc :: R5
+    let R3 := prBare c ++ .p .semi :: R4
+    let R2 := prJ a ++ .p .semi :: R3
+    let R1 := prJ v ++ .p .assign :: R2
+    have hfst : JFollow 1 (step :: .p .rp :: .p .lc :: R5) := by
+      rw [← hstep]; cases d
+      · exact jfollow_inc _ _
+      · exact jfollow_dec _ _
+    have hnp : NoPost (step :: .p .rp :: .p .lc :: R5) := by
+      rw [← hstep]; cases d <;> trivial
+    have e1 : jExpr (10 * (R1.length + 1 + 2)) R1 = some (v, .p .assign :: R2) :=
+      jExpr_read v hv (.p .assign :: R2) (jfollow_assign _ _) trivial _ (by simp [R1]; omega)
+    have e2 : jExpr (10 * (R1.length + 1 + 2)) R2 = some (a, .p .semi :: R3) :=
+      jExpr_read a ha (.p .semi :: R3) (jfollow_closer _ _ _ (Or.inr (Or.inr (Or.inr rfl)))) trivial _ (by simp [R1, R2]; omega)
+    have e3 : jExpr (10 * (R1.length + 1 + 2)) R3 = some (c, .p .semi :: R4) :=
+      jExpr_bare c hc (.p .semi) (Or.inr rfl) R4 _ (by simp [R1, R2, R3]; omega)
+    have e4 : jExpr (10 * (R1.length + 1 + 2)) R4 = some (v, step :: .p .rp :: .p .lc :: R5) :=
+      jExpr_read v hv _ hfst hnp _ (by simp [R1, R2, R3, R4]; omega)
+    have e5 := jBlock_prT b hb rest f (by omega)
+    have := jStmt_for f R1 R2 R3 R4 R5 rest v a c v step d b e1 e2 e3 e4 hstep.symm rfl e5
+    simpa [prS, R1, R2, R3, R4, R5, hstep, List.append_assoc] using this
+  | .expr e, h, rest, f, _, _ => jStmt_prS (.expr e) h rfl rest f
+  | .assign l r, h, rest, f, _, _ => jStmt_prS (.assign l r) h rfl rest f
+  | .ret es, h, rest, f, _, _ => jStmt_prS (.ret es) h rfl rest f
+  | .var n, h, rest, f, _, _ => jStmt_prS (.var n) h rfl rest f
+  | .brk, h, _, _, _, _ => absurd h (by simp [ReadOKS])
+  | .forOf _ _ _, h, _, _, _, _ => absurd h (by simp [ReadOKS])
+  | .with _ _, h, _, _, _, _ => absurd h (by simp [ReadOKS])
+/-- **J5 (reading, trees)**: a block body up to its closing brace -/
+theorem jBlock_prT : ∀ (ss : List JS), ReadOKSs ss → ∀ (rest : List JTok) (F : Nat), ssW ss + 2 ≤ F →
     jBlock F (prBody ss ++ .p .rc :: rest) = some (ss, rest)
   | [], _, rest, F, hF => by
-    obtain ⟨f, rfl⟩ : ∃ f, F = f + 1 := ⟨F - 1, by simp at hF; omega⟩
+    obtain ⟨f, rfl⟩ : ∃ f, F = f + 1 := ⟨F - 1, by omega⟩
     simpa [prBody] using jBlock_close f rest
   | s :: ss, h, rest, F, hF => by
-    obtain ⟨h1, h2⟩ : ReadOKS s ∧ ReadOKSs ss := h
-    obtain ⟨f, rfl⟩ : ∃ f, F = f + 2 := ⟨F - 2, by simp at hF; omega⟩
-    obtain ⟨x, tl, hx⟩ := prS_head s h1
-    have e1 := jStmt_prS s h1 (prBody ss ++ .p .rc :: rest) f
-    have e2 := jBlock_prBody ss h2 rest (f + 1) (by simp at hF; omega)
+    simp only [ReadOKSs] at h
+    obtain ⟨h1, h2⟩ := h
+    simp only [ssW] at hF
+    obtain ⟨f, rfl⟩ : ∃ f, F = f + 2 := ⟨F - 2, by omega⟩
+    obtain ⟨x, tl, hx, _⟩ := prS_head s h1
+    have e1 := jStmt_prT s h1 (prBody ss ++ .p .rc :: rest) f (by omega) (noElse_body ss h2 rest)
+    have e2 := jBlock_prT ss h2 rest (f + 1) (by omega)
     rw [hx] at e1
     have := jBlock_step (f + 1) x (tl ++ (prBody ss ++ .p .rc :: rest)) _ rest s ss (by simpa using e1) e2
     simpa [prBody, hx, List.append_assoc] using this
+end
+
+/-- the translation of a flat body needs one unit of fuel per statement -/
+theorem ssW_simple : ∀ (ss : List JS), (∀ s ∈ ss, isSimpleJ s = true) → ssW ss = ss.length
+  | [], _ => rfl
+  | s :: ss, h => by
+    have h1 : stW s = 0 := by
+      have := h s (by simp)
+      cases s <;> first | rfl | (simp [isSimpleJ] at this)
+    simp only [ssW, h1, ssW_simple ss (fun x hx => h x (by simp [hx])), List.length_cons]; omega
+
+/-- **J5 (reading)**: a block body up to its closing brace -/
+theorem jBlock_prBody (ss : List JS) (h : ReadOKSs ss) (rest : List JTok) (F : Nat) (hF : ssW ss + 2 ≤ F) :
+    jBlock F (prBody ss ++ .p .rc :: rest) = some (ss, rest) := jBlock_prT ss h rest F hF
 
 end Drx.LinkJs
